@@ -40,10 +40,173 @@ def run_tts(hist, modulus, sampling):
     return [a, b]
 
 
+class _Boom(Exception):
+    pass
+
+
+class _ManualScheduler:
+    """schedule() only stores the action: the subscription is returned to the subscriber
+    before the first item is produced (as under a running trampoline or an event loop)"""
+
+    def __init__(self):
+        self.actions = []
+
+    def schedule(self, action, state=None):
+        from rx.disposable import Disposable
+        self.actions.append((action, state))
+        return Disposable()
+
+    def run(self):
+        for action, state in self.actions:
+            action(self, state)
+
+
+_RUN = [0]
+
+
+def run_source(which, src, dispose_at, extend, str_items):
+    """replay one behaviour of spec/Sources.tla on the real operator;
+    returns (out, ids, acted) in the model's encoding"""
+    import rx
+    import rxsci as rs
+    from rx.subject import Subject
+    _RUN[0] += 1
+    out, ids, acted = [], [], [0]
+
+    def gen():
+        for e in src:
+            if e[0] == 'x':
+                raise _Boom(e[1])
+            yield e[1]
+
+    if which == 'iter':
+        sched = _ManualScheduler()
+        sub = []
+        count = [0]
+
+        def on_next(v):
+            out.append(['n', v])
+            count[0] += 1
+            if count[0] == dispose_at:
+                sub[0].dispose()
+        sub.append(rs.ops.from_iterable(gen(), scheduler=sched).subscribe(
+            on_next=on_next, on_error=lambda e: out.append(['e', e.args[0]]),
+            on_completed=lambda: out.append(['c'])))
+        sched.run()
+        return out, ids, 0
+    if which == 'deque':
+        subj = Subject()
+        with C.quiet_stdout():
+            subj.pipe(rs.data.to_deque(extend=extend)).subscribe(
+                on_next=lambda v: out.append(['n', v]), on_error=lambda e: out.append(['e', e.args[0]]),
+                on_completed=lambda: out.append(['c']))
+            for e in src:
+                if e[0] == 'x':
+                    subj.on_error(_Boom(e[1]))
+                    break
+                subj.on_next(list(e[1]) if extend else e[1])
+            else:
+                subj.on_completed()
+        return out, ids, 0
+    if which == 'cache':
+        # equal but distinct objects: tuples (or strings) built at run time
+        def obj(v):
+            if v == 0:
+                return None
+            return ('verif-item-%d-%d' % (_RUN[0], v)) if str_items else (v, 'x' * v)
+        objs = [obj(e[1]) for e in src]
+        subj = Subject()
+        emitted = []
+        subj.pipe(rs.data.cache()).subscribe(on_next=emitted.append, on_error=lambda e: out.append(['e', 1]),
+                                             on_completed=lambda: out.append(['c']))
+        val = lambda o: 0 if o is None else (int(o.rsplit('-', 1)[1]) if str_items else o[0])
+        try:
+            for o in objs:
+                subj.on_next(o)
+            subj.on_completed()
+        except TypeError:
+            pass
+        res = [['n', val(o)] for o in emitted]
+        if len(out) == 0 or out[-1] != ['c']:
+            res.append(['e', 1])          # the exception escaped on_next: the stream is dead
+        else:
+            res.append(['c'])
+        for o in emitted:
+            ids.append(0 if o is None else next((j + 1 for j, s_ in enumerate(objs) if s_ is o), -1))
+        return res, ids, 0
+    if which == 'run':
+        try:
+            r = rs.run(rs.ops.from_iterable(gen()))
+            return ['r', 0 if r is None else r], ids, 0
+        except _Boom as e:
+            return ['e', e.args[0]], ids, 0
+    if which == 'onsub':
+        items = [e[1] for e in src]
+
+        def action():
+            acted[0] += 1
+            out.append(['acted-after', len(out)])
+        rx.from_(items).pipe(rs.ops.on_subscribe(action)).subscribe(
+            on_next=lambda v: out.append(['n', v]), on_completed=lambda: out.append(['c']))
+        marks = [o for o in out if o[0] == 'acted-after']
+        plain = [o for o in out if o[0] != 'acted-after']
+        if any(m[1] != 0 for m in marks):
+            plain.append(['action-after-delivery'])
+        return plain, ids, acted[0]
+    raise C.MachineryError(which)
+
+
+def sources_phase():
+    """spec/Sources.tla: TLC checks the statements and prints every behaviour; each is replayed"""
+    jobs = []
+    for which, inv in (('iter', 'IterStatement'), ('deque', 'DequeStatement'), ('cache', 'CacheStatement'),
+                       ('run', 'RunStatement'), ('onsub', 'OnSubStatement')):
+        variants = [dict(Extend=False, StrItems=False)]
+        if which == 'deque':
+            variants.append(dict(Extend=True, StrItems=False))
+        if which == 'cache':
+            variants.append(dict(Extend=False, StrItems=True))
+        for v in variants:
+            c = dict(Which=which, Vals={1, 2}, MaxLen=3 if v['Extend'] else 4, **v)
+            jobs.append((which, c, inv))
+    rs_ = C.par([lambda c=c, inv=inv: C.run_tlc('Sources', C.cfg(constants=c, invariants=[inv, 'EmitBehaviour']),
+                                                 workers=2) for (_, c, inv) in jobs])
+    bad = total = 0
+    for (which, c, inv), r in zip(jobs, rs_):
+        if r.violated:
+            print('Sources model violates %s for %s' % (r.violated, c))
+            return None, None
+        behs = C.extract_printed(r.stdout, 'BEH')
+        for (_, w, src, dispose_at, mout, mids, macted) in behs:
+            total += 1
+            real = run_source(w, [list(e) for e in src], dispose_at, c['Extend'], c['StrItems'])
+            norm = lambda x: [list(e) if isinstance(e, (list, tuple)) else e for e in x]
+            model = (norm(mout), list(mids), macted)
+            got = (norm(real[0]), list(real[1]), real[2])
+            if w != 'cache':
+                model, got = (model[0], model[2]), (got[0], got[2])
+            elif c['StrItems']:
+                # interned strings: equal values are one object (which one is python's choice)
+                same = lambda ids_: [[a == b for b in ids_] for a in ids_]
+                model, got = (model[0], same(model[1])), (got[0], same(got[1]))
+            if model != got:
+                bad += 1
+                if bad <= 5:
+                    print('EXTRA-MISMATCH %s %s src=%s dispose_at=%s model=%s real=%s' % (w, c, src, dispose_at, model, got))
+        print('%s %s: %d states, %d behaviours replayed' % (which, {k: c[k] for k in ('Extend', 'StrItems', 'MaxLen')},
+                                                           r.distinct, len(behs)))
+    return total, bad
+
+
 def main():
     C.use_repo()
     bad = 0
     total = 0
+    t2, b2 = sources_phase()
+    if t2 is None:
+        return 2
+    total += t2
+    bad += b2
     jobs = [('wlf', dict(Which='wlf', NChildren=2, Vals={1, 2}, Modulus=0, Sampling=1, MaxEvents=5), ['WlfStatement']),
             ('wlf', dict(Which='wlf', NChildren=1, Vals={1, 2, 3}, Modulus=0, Sampling=1, MaxEvents=5), ['WlfStatement'])]
     for m in (2, 3, 4):
